@@ -33,7 +33,8 @@ def make_overlay(repo, dst, u):
         text = open(hsrc).read().replace("@VERIF_ENV@", os.path.join(VERIF, "env"))
         open(hdst, "w").write(text)
         with open(target, "a") as f:
-            f.write(f"\n#[cfg(kani)]\n#[path = \"{hdst}\"]\nmod {att['mod']};\n")
+            vis = (att["vis"] + " ") if att.get("vis") else ""
+            f.write(f"\n#[cfg(kani)]\n#[path = \"{hdst}\"]\n{vis}mod {att['mod']};\n")
         harness_path = harness_path or hdst
         scan_paths.append(hdst)
     for sub in u.get("substitutions", []):
